@@ -99,6 +99,8 @@ PROPS["C10"] = {
     "units": [
         {"name": "C10cl", "pkg": "server/commitlog", "test": "TestVerifC10cl",
          "quick": {"shards": 16, "checks": 600}, "thorough": {"shards": 16, "checks": 6000, "timeout": 3000}},
+        {"name": "C10", "pkg": "server", "test": "TestVerifC10",
+         "quick": {"shards": 16, "checks": 250}, "thorough": {"shards": 16, "checks": 5000, "timeout": 3000}},
     ],
 }
 
@@ -170,5 +172,19 @@ PROPS["C12"] = {
     "units": [
         {"name": "C12", "pkg": "server", "test": "TestVerifC12",
          "quick": {"shards": 16, "checks": 2000}, "thorough": {"shards": 16, "checks": 20000, "timeout": 3000}},
+    ],
+}
+
+PROPS["C13"] = {
+    "level": "exploration",
+    "technique": "model-based stateful property testing (rapid) of group subscribes/cancels/ends + concurrent interval monitor under the race detector",
+    "level_text": "TODO",
+    "level_note": "TODO",
+    "rule": "TODO",
+    "assumptions": TRUST,
+    "claimed": False,
+    "units": [
+        {"name": "C13a", "pkg": "server", "test": "TestVerifC13a",
+         "quick": {"shards": 16, "checks": 300}, "thorough": {"shards": 16, "checks": 10000, "timeout": 3000}},
     ],
 }
